@@ -404,6 +404,14 @@ def cases(tier, shard, nshards):
                 if exp is None:
                     continue
                 yield Case(src, {"fn": name, "kind": kind, "n": len(xs), "exp": exp if exp == RAISE else list(exp)})
+            # the same forms with the input HELD by a variable (so it is shared when the builtin sees it, and must be intact afterwards):
+            # a function of values may not depend on who else holds the value
+            same = "(xx_ == %s)" % S if kind == "set" else "(list(xx_) == list(%s))" % S
+            for (name, src, exp) in forms(kind, xs, "xx_"):
+                if exp is None:
+                    continue
+                prog = "xx_ := %s; rr_ := (%s); [rr_, %s]" % (S, src, same)
+                yield Case(prog, {"fn": name, "kind": kind, "n": len(xs), "exp": exp if exp == RAISE else list(exp), "held": True})
     smax = 5 if tier == "quick" else 6
     for L in range(0, smax + 1):
         for t in itertools.product(["a", "b", ",", " ", "\n"], repeat=L):
@@ -448,6 +456,13 @@ def judge(case, rs):
     if st != "ok":
         return [Violation(sig + " result=" + str(st), "%s: expected %s, status %s %s" % (src, json.dumps(exp)[:200], st, r.get("e")), exp, st)]
     got = norm(r["v"])
+    if m.get("held"):
+        if not (isinstance(got, list) and got and got[0] == "l" and len(got[1]) == 2):
+            return [Violation(sig + " result=malformed", "%s gave %s" % (src, json.dumps(got)[:200]), exp, got)]
+        if got[1][1] != cI(1):
+            return [Violation(sig + " held=1 result=operand-changed", "%s: the variable holding the input no longer equals the input (%s)" % (src, json.dumps(got)[:300]), 1, got[1][1])]
+        got = got[1][0]
+        sig += " held=1"
     t = exp[0]
     ok = True
     if t == "exact":
